@@ -22,7 +22,7 @@ Definition ngpr (m : mode) : Z := match m with M64 => 16 | M32 => 8 end.
 
 (* ---------------- the memory image of a test ---------------- *)
 Definition LOW_BASE : Z := 268435456.            (* 0x10000000 *)
-Definition HIGH_BASE : Z := 130086299926528.     (* 0x765432100000 *)
+Definition HIGH_BASE : Z := 130103989239808.     (* 0x765432100000 *)
 Definition REG_SIZE : Z := 65536.
 Definition in_regions (a : Z) : bool :=
   ((LOW_BASE <=? a) && (a <? LOW_BASE + REG_SIZE)) || ((HIGH_BASE <=? a) && (a <? HIGH_BASE + REG_SIZE)).
@@ -89,7 +89,7 @@ Fixpoint env_of_list (name : Z -> N) (w : Z) (i : Z) (l : list Z) : senv :=
 Definition il_init (m : mode) (gpr xmm : list Z) (rfl : Z) (mem : list (Z * Z)) : sstate :=
   let fl n bit := ((n, None), mkc 1 (rfl_bit rfl bit)) in
   mkst (env_of_list (gpr_name m) (wordsz m) 0 gpr
-        ++ (match m with M64 => env_of_list n_xmm 128 0 xmm | M32 => [] end)
+        ++ env_of_list n_xmm 128 0 xmm
         ++ [fl n_CF 0; fl n_PF 2; fl n_ZF 6; fl n_SF 7; fl n_OF 11; fl n_DF 10])
        (mkbmem false mem).
 
@@ -108,10 +108,10 @@ Fixpoint env_vals (en : senv) (name : Z -> N) (w : Z) (i : Z) (n : nat) : option
                      end
   end.
 
-Definition il_obs (m : mode) (st : sstate) (next : option Z) (ninit : nat) : option observation :=
+Definition il_obs (m : mode) (nx : nat) (st : sstate) (next : option Z) (ninit : nat) : option observation :=
   let en := st_env st in
   match env_vals en (gpr_name m) (wordsz m) 0 (Z.to_nat (ngpr m)),
-        (match m with M64 => env_vals en n_xmm 128 0 16 | M32 => Some [] end),
+        env_vals en n_xmm 128 0 nx,
         env_val en n_CF 1, env_val en n_ZF 1, env_val en n_SF 1, env_val en n_OF 1, env_val en n_DF 1 with
   | Some g, Some x, Some cf, Some zf, Some sf, Some of, Some df =>
       let bytes := bm_bytes (st_mem st) in
